@@ -66,3 +66,28 @@ def make_os(I, getcwd_may_fail=True):
         return "<dirname>"
 
     return NativeModule("os", {"getcwd": BuiltinFn("getcwd", getcwd), "path": NativeModule("os.path", {"dirname": BuiltinFn("dirname", dirname)})})
+
+
+def install_native_ast_setattr(reg):
+    """Attribute assignment on a native `ast` node (the transformer mutates the nodes it is given)."""
+
+    prev = reg.setattr_fallback
+
+    def chained(I, obj, name, v):
+        if isinstance(obj, _ast.AST):
+            setattr(obj, name, v)
+            return None
+        if prev is not None:
+            return prev(I, obj, name, v)
+        from .values import PyvcError
+
+        raise PyvcError(f"cannot set attribute {name} on {obj!r}")
+
+    reg.setattr_fallback = chained
+
+
+def as_list(x):
+    """python list view of a list-like model value (PList / list / tuple)."""
+    if isinstance(x, PList):
+        return list(x.items)
+    return list(x or [])
